@@ -140,8 +140,183 @@ func genC03(g *Gen) error {
 		return err
 	}
 	g.PairList("loaderSwitch", rows)
+	if err := c03LoopShape(g); err != nil {
+		return err
+	}
 	g.Footer()
 	return nil
+}
+
+// c03LoopShape emits the control shape of the start-up loop over the compact-log directory
+// as data (not only as source text): what procCompactLog does with a log the reader calls
+// dirty (ErrDirtyLog), with any other reader error, with an error of processLog, whether the
+// log is removed at the end of the loop body, and what recoverFile does with the error
+// procCompactLog returns. The multi-log recovery model (OG.C03.Multi) takes `dirtyLogSkipped`
+// as its parameter, so a loop that stops at a dirty log changes the model the theorems are
+// about.
+func c03LoopShape(g *Gen) error {
+	const rel = "engine/immutable/compaction_file_info.go"
+	fd, err := g.Func(rel, "procCompactLog")
+	if err != nil {
+		return err
+	}
+	var loop *ast.RangeStmt
+	for _, st := range fd.Body.List {
+		if r, ok := st.(*ast.RangeStmt); ok {
+			loop = r
+		}
+	}
+	if loop == nil {
+		return fmt.Errorf("procCompactLog: no range loop at the top level of the body")
+	}
+	g.P("")
+	g.P("/-- procCompactLog: `for … := range <this>` over the listing of the compact-log directory. -/")
+	g.P("def procCompactLog_loopOver : String := %s", leanStr(g.Src(loop.X)))
+	// the statement after `err = readCompactLogFile(…)` / `err = processLog(…)` that tests err
+	errBranchAfter := func(callee string) *ast.IfStmt {
+		list := loop.Body.List
+		for i, st := range list {
+			// `err = f(…)` followed by `if err != nil {…}`
+			if as, ok := st.(*ast.AssignStmt); ok && len(as.Rhs) == 1 && c03Callee(as.Rhs[0]) == callee {
+				if i+1 < len(list) {
+					if ifs, ok := list[i+1].(*ast.IfStmt); ok && strings.Contains(g.Src(ifs.Cond), "err != nil") {
+						return ifs
+					}
+				}
+				return nil
+			}
+			// `if err = f(…); err != nil {…}`
+			if ifs, ok := st.(*ast.IfStmt); ok && ifs.Init != nil {
+				if as, ok := ifs.Init.(*ast.AssignStmt); ok && len(as.Rhs) == 1 && c03Callee(as.Rhs[0]) == callee &&
+					strings.Contains(g.Src(ifs.Cond), "err != nil") {
+					return ifs
+				}
+			}
+		}
+		return nil
+	}
+	act := func(ifs *ast.IfStmt, dirty bool) string {
+		if ifs == nil {
+			return "no-error-branch"
+		}
+		return c03Action(g, ifs.Body.List, dirty)
+	}
+	rd := errBranchAfter("readCompactLogFile")
+	g.P("/-- what the loop does when the reader reports an incomplete (dirty) log. -/")
+	g.P("def procCompactLog_onDirty : String := %s", leanStr(act(rd, true)))
+	g.P("/-- … and when the reader fails in any other way. -/")
+	g.P("def procCompactLog_onOtherErr : String := %s", leanStr(act(rd, false)))
+	pl := errBranchAfter("processLog")
+	g.P("/-- … and when processLog fails (invalid log): falls through to the removal of the log. -/")
+	g.P("def procCompactLog_onProcessErr : String := %s", leanStr(act(pl, false)))
+	// is the log removed at the top level of the loop body, after processLog?
+	removes := false
+	seenProcess := false
+	for _, st := range loop.Body.List {
+		src := g.Src(st)
+		if strings.Contains(src, "processLog(") {
+			seenProcess = true
+			continue
+		}
+		if seenProcess && strings.Contains(src, "fileops.Remove(logFile") {
+			removes = true
+		}
+	}
+	g.P("def procCompactLog_removesLogAfterProcess : Bool := %v", removes)
+	last := "none"
+	if n := len(fd.Body.List); n > 0 {
+		last = g.Src(fd.Body.List[n-1])
+	}
+	g.P("def procCompactLog_lastStmt : String := %s", leanStr(last))
+	g.P("/-- the loop goes on to the next log after a dirty one (used by OG.C03.Multi). -/")
+	g.P("def dirtyLogSkipped : Bool := %v", act(rd, true) == "continue")
+
+	// recoverFile: the error of procCompactLog
+	const rel2 = "engine/immutable/mms_tables.go"
+	fd, err = g.Func(rel2, "recoverFile")
+	if err != nil {
+		return err
+	}
+	var rf *ast.IfStmt
+	ast.Inspect(fd.Body, func(n ast.Node) bool {
+		cc, ok := n.(*ast.CaseClause)
+		if !ok {
+			return true
+		}
+		for i, st := range cc.Body {
+			if as, ok := st.(*ast.AssignStmt); ok && len(as.Rhs) == 1 && c03Callee(as.Rhs[0]) == "procCompactLog" && i+1 < len(cc.Body) {
+				if ifs, ok := cc.Body[i+1].(*ast.IfStmt); ok && strings.Contains(g.Src(ifs.Cond), "err != nil") {
+					rf = ifs
+				}
+			}
+		}
+		return true
+	})
+	g.P("/-- recoverFile: what happens with a dirty-log error / another error returned by procCompactLog. -/")
+	g.P("def recoverFile_onDirty : String := %s", leanStr(act(rf, true)))
+	g.P("def recoverFile_onOtherErr : String := %s", leanStr(act(rf, false)))
+	return nil
+}
+
+func c03Callee(e ast.Expr) string {
+	call, ok := e.(*ast.CallExpr)
+	if !ok {
+		return ""
+	}
+	switch f := call.Fun.(type) {
+	case *ast.Ident:
+		return f.Name
+	case *ast.SelectorExpr:
+		return f.Sel.Name
+	}
+	return ""
+}
+
+// c03Action runs a statement list abstractly for an error value that is (dirty) or is not
+// ErrDirtyLog and returns the first control transfer: "continue", "break", "return <expr>",
+// "fallthrough" (the list ends), "unknown:<cond>" (a condition it cannot decide). Statements
+// that are not `if` / control transfers (logging, assignments) are skipped.
+func c03Action(g *Gen, list []ast.Stmt, dirty bool) string {
+	for _, st := range list {
+		switch s := st.(type) {
+		case *ast.BranchStmt:
+			return s.Tok.String()
+		case *ast.ReturnStmt:
+			var rs []string
+			for _, r := range s.Results {
+				rs = append(rs, g.Src(r))
+			}
+			return strings.TrimSpace("return " + strings.Join(rs, ", "))
+		case *ast.IfStmt:
+			cond := strings.ReplaceAll(g.Src(s.Cond), " ", "")
+			var v, known bool
+			switch cond {
+			case "err!=ErrDirtyLog", "!errors.Is(err,ErrDirtyLog)":
+				v, known = !dirty, true
+			case "err==ErrDirtyLog", "errors.Is(err,ErrDirtyLog)":
+				v, known = dirty, true
+			}
+			if !known {
+				return "unknown:" + cond
+			}
+			var r string
+			if v {
+				r = c03Action(g, s.Body.List, dirty)
+			} else if s.Else != nil {
+				if b, ok := s.Else.(*ast.BlockStmt); ok {
+					r = c03Action(g, b.List, dirty)
+				} else {
+					r = c03Action(g, []ast.Stmt{s.Else}, dirty)
+				}
+			} else {
+				r = "fallthrough"
+			}
+			if r != "fallthrough" {
+				return r
+			}
+		}
+	}
+	return "fallthrough"
 }
 
 // c03Calls lists, in source order, the calls of a function body whose callee name is in vocab,
